@@ -134,6 +134,19 @@ func (tx *Tx) recursivelyCheckBucket(b *Bucket, reachable map[common.Pgid]*commo
 
 	tx.checkInvariantProperties(b.RootPage(), reachable, freed, kvStringer, ch)
 
+	// A page that is neither a branch nor a leaf page has been reported above. A cursor
+	// cannot walk such a tree: it takes the page for a branch page, follows whatever
+	// bytes it finds there and may fault or never terminate.
+	walkable := true
+	tx.forEachPage(b.RootPage(), func(p *common.Page, _ int, _ []common.Pgid) {
+		if !p.IsBranchPage() && !p.IsLeafPage() {
+			walkable = false
+		}
+	})
+	if !walkable {
+		return
+	}
+
 	// Check each bucket within this bucket.
 	_ = b.ForEachBucket(func(k []byte) error {
 		if child := b.Bucket(k); child != nil {
